@@ -131,7 +131,41 @@ tasks:
     return None
 
 
-WITNESS = {"D21": witness_D21, "D1": witness_D1, "D5a": witness_D5a, "D8": witness_D8, "D9": witness_D9, "D11": witness_D11}
+def witness_D24():
+    c = _mk("""
+version: 1.0
+tasks:
+  w: {with: {items: "<% list(1, 2, 3) %>", concurrency: 1}, action: core.noop}
+  k: {action: core.noop}
+""")
+    _poll(c)
+    _done(c, "k", S.CANCELED)                       # a task ends canceled: the workflow becomes canceling
+    c.update_task_state("w", 0, events.TaskItemActionExecutionEvent(0, S.SUCCEEDED, result=1, accumulated_result=[1]))
+    if c.get_workflow_status() == S.CANCELING and not c.get_next_tasks():
+        return ("task k ended canceled, the in-flight item of with-items task w reported: workflow stays canceling with "
+                "nothing in flight and nothing offered (w is still running with unoffered items)")
+    return None
+
+
+def witness_D25():
+    c = _mk("""
+version: 1.0
+tasks:
+  w: {with: "<% list(1, 2) %>", action: core.noop}
+""")
+    _poll(c)
+    ev = events.TaskItemActionExecutionEvent
+    c.update_task_state("w", 0, ev(0, S.SUCCEEDED, result=1, accumulated_result=[1]))
+    c.update_task_state("w", 0, ev(1, S.PENDING, accumulated_result=[1, None]))
+    c.update_task_state("w", 0, ev(1, S.SUCCEEDED, result=2, accumulated_result=[1, 2]))
+    t = c.workflow_state.get_task("w", 0)
+    if t["status"] == S.PAUSED and c.get_workflow_status() == S.PAUSED:
+        return ("item 1 of with-items task w went pending (task paused) and then succeeded: the completion is ignored, "
+                "the task stays paused with every item done")
+    return None
+
+
+WITNESS = {"D25": witness_D25, "D24": witness_D24, "D21": witness_D21, "D1": witness_D1, "D5a": witness_D5a, "D8": witness_D8, "D9": witness_D9, "D11": witness_D11}
 
 
 def reconfirm(known, prop):
@@ -235,5 +269,38 @@ def trig_rerun_of_transitioned(sess, upto=None):
     return False
 
 
-TRIGGERS = {"D21": trig_rerun_of_transitioned, "D1": trig_late_join_arrival, "D5a": trig_completed_without_terminal,
+def trig_idle_items_while_held(sess, upto=None):
+    """the workflow is canceling/pausing (because a task, not a request, made it so) while a with-items task is
+    still running with items that were never offered and none active: nothing will ever report for it"""
+    for i, (op, obs) in enumerate(sess.trace):
+        if upto is not None and i > upto:
+            break
+        st = obs["state"]["state"]
+        if st["status"] in ("canceling", "pausing"):
+            for s in st["staged"]:
+                items = [x["status"] for x in s.get("items", [])]
+                key = "%s__r%s" % (s["id"], s["route"])
+                if items and "null" in items and not any(x in ("requested", "scheduled", "delayed", "running", "resuming",
+                                                                "pausing", "canceling") for x in items) \
+                        and key in st["tasks"] and st["sequence"][st["tasks"][key]].get("status") in ("running",):
+                    return True
+    return False
+
+
+def trig_paused_items_task_done(sess, upto=None):
+    """a with-items task is paused although none of its items is pending/paused/active any more"""
+    for i, (op, obs) in enumerate(sess.trace):
+        if upto is not None and i > upto:
+            break
+        st = obs["state"]["state"]
+        for s in st["staged"]:
+            items = [x["status"] for x in s.get("items", [])]
+            key = "%s__r%s" % (s["id"], s["route"])
+            if items and key in st["tasks"] and st["sequence"][st["tasks"][key]].get("status") == "paused" \
+                    and all(x in ("succeeded", "failed", "timeout", "abandoned", "canceled", "null") for x in items):
+                return True
+    return False
+
+
+TRIGGERS = {"D25": trig_paused_items_task_done, "D24": trig_idle_items_while_held, "D21": trig_rerun_of_transitioned, "D1": trig_late_join_arrival, "D5a": trig_completed_without_terminal,
             "D8": trig_rerun_of_command, "D9": trig_empty_rerun}
